@@ -1,4 +1,5 @@
 (* Facts about the reference file of Spec.C18_Spec: lines, rest, advance. *)
+From Coq Require Import ZifyBool.
 From Boltons Require Import Lib.Prelude Spec.C18_Spec.
 
 Lemma take_line_nil_iff l : take_line l = [] <-> l = [].
@@ -98,15 +99,13 @@ Proof.
   - lia.
   - rewrite firstn_length. pose proof (take_line_length (rest f)). lia.
   - pose proof (take_line_length (rest f)). lia.
-  - destruct k; simpl in P; try discriminate; destruct hint; try discriminate;
-      rewrite take_hint_0, total_len_lines; lia.
+  - destruct hint; [|discriminate]. rewrite take_hint_0, total_len_lines; lia.
   - destruct (take_line (rest f)) as [|x l] eqn:E; simpl; [assumption|].
     pose proof (take_line_length (rest f)) as L. rewrite E in L. simpl in L. lia.
   - rewrite total_len_lines. lia.
   - rewrite total_len_lines. lia.
   - destruct (seek_target f off wh <? 0)%Z eqn:E; simpl; [assumption|].
-    destruct k; simpl in P.
-    + apply andb_true_iff in P as [P1 P2]. lia.
-    + unfold seek_target in *. destruct wh as [|[|wh]]; simpl in *; try lia.
+    apply andb_true_iff in P as [P _]. apply andb_true_iff in P as [P P2].
+    apply Z.leb_le in P2. lia.
   Unshelve. all: exact 0.
 Qed.
